@@ -119,8 +119,29 @@ class Entry(object):
     scale_cap = 30.0       # largest magnitude of x entries
     callable_only = False  # factory returns a plain callable, no Operator
 
+    classes = ({},)        # parameter classes enumerated by the sweep
+
     def params(self, draw, rsp):
         return {}
+
+    def draw_params(self, draw, rsp, force=None):
+        """Parameters with the entries of ``force`` imposed ('__vec__' /
+        '__posvec__' = draw an element-valued parameter)."""
+        force = force or {}
+        if 'kind' in force:
+            p = _box_params(draw, rsp, kind=force['kind'])
+        else:
+            p = self.params(draw, rsp)
+        for k, v in force.items():
+            if k == 'kind':
+                continue
+            if v == '__vec__':
+                p[k] = draw(vecs(rsp.size))
+            elif v == '__posvec__':
+                p[k] = draw(vecs(rsp.size, positive=True))
+            else:
+                p[k] = v
+        return p
 
     def site(self, p):
         return self.name
@@ -156,6 +177,7 @@ class _NormFactory(Entry):
     kinds = ('T', 'P', 'G')
     fun = None
     weight = 3
+    classes = ({'g': None}, {'g': '__vec__'})
 
     def params(self, draw, rsp):
         return {'lam': draw(LAMS), 'g': _opt_g(draw, rsp)}
@@ -275,9 +297,13 @@ class FCCLinf(Entry):
         return R.RIndLpBall(rsp, 1, 1.0)
 
 
-def _box_params(draw, rsp):
-    kind = draw(st.sampled_from(['ss', 'ss', 's-', '-s', 'ee', 'se', 'e-',
-                                 '--']))
+BOX_KINDS = ('ss', 's-', '-s', 'ee', 'se', 'es', 'e-', '-e', '--')
+
+
+def _box_params(draw, rsp, kind=None):
+    if kind is None:
+        kind = draw(st.sampled_from(['ss', 'ss', 's-', '-s', 'ee', 'se', 'es',
+                                     'e-', '-e', '--']))
     lo = hi = None
     a = draw(st.sampled_from([-1.0, 0.0, -2.5, 0.5, -0.25]))
     b = a + draw(st.sampled_from([0.0, 1.0, 2.0, 0.5, 3.5]))
@@ -316,6 +342,7 @@ class FBox(Entry):
     name, mode = 'f_box', 'factory'
     kinds = ('T', 'P', 'G')
     weight = 2
+    classes = tuple({'kind': k} for k in BOX_KINDS)
 
     def params(self, draw, rsp):
         return _box_params(draw, rsp)
@@ -378,6 +405,7 @@ class FHuber(Entry):
     name, mode = 'f_huber', 'factory'
     kinds = ('T', 'P')
     weight = 3
+    classes = ({'gamma': 0.0}, {'gamma': 0.4}, {'gamma': 2.5})
 
     def params(self, draw, rsp):
         return {'gamma': draw(GAMMAS)}
@@ -396,6 +424,8 @@ class FCCKL(Entry):
     """(lam F)^*, F the KL divergence with prior g: lam F^*(./lam)."""
     name, mode = 'f_cc_kl', 'factory'
     weight = 2
+    classes = ({'g': None, 'lam': 1.0}, {'g': None, 'lam': 2.0},
+               {'g': '__posvec__', 'lam': 0.5}, {'g': '__posvec__'})
 
     def params(self, draw, rsp):
         return {'lam': draw(LAMS), 'g': _opt_g(draw, rsp, positive=True)}
@@ -448,6 +478,8 @@ class FProjSimplex(Entry):
     name, mode = 'f_proj_simplex', 'factory'
     weight = 2
     callable_only = True
+    classes = ({'diameter': 1.0, 'out': True}, {'diameter': 2.0, 'out': False},
+               {'diameter': 0.5, 'out': True})
 
     def params(self, draw, rsp):
         return {'diameter': draw(st.sampled_from([1.0, 1.0, 0.5, 2.0, 10.0,
@@ -489,6 +521,7 @@ class _Class(Entry):
 class CLpNorm(_Class):
     name = 'LpNorm'
     weight = 4
+    classes = ({'p': 1.0}, {'p': 2.0}, {'p': INF}, {'p': 1.5}, {'p': 0.0})
 
     def params(self, draw, rsp):
         return {'p': draw(st.sampled_from([1.0, 2.0, INF, INF, 1.5, 3.0,
@@ -555,6 +588,7 @@ class CGroupL1(_Class):
     name = 'GroupL1Norm'
     kinds = ('P',)
     weight = 3
+    classes = ({'p': None}, {'p': 1.0}, {'p': 2.0}, {'p': INF})
 
     def params(self, draw, rsp):
         return {'p': draw(st.sampled_from([None, 1.0, 2.0, 2.0, INF, 3.0]))}
@@ -576,6 +610,7 @@ class CIndGroupBall(_Class):
     name = 'IndicatorGroupL1UnitBall'
     kinds = ('P',)
     weight = 3
+    classes = ({'p': None}, {'p': INF}, {'p': 2.0}, {'p': 1.0})
 
     def params(self, draw, rsp):
         return {'p': draw(st.sampled_from([None, INF, INF, 2.0, 1.0, 3.0]))}
@@ -596,6 +631,7 @@ class CIndGroupBall(_Class):
 class CIndLpBall(_Class):
     name = 'IndicatorLpUnitBall'
     weight = 4
+    classes = ({'p': 1.0}, {'p': 2.0}, {'p': INF}, {'p': 1.5})
 
     def params(self, draw, rsp):
         return {'p': draw(st.sampled_from([1.0, 1.0, 2.0, INF, 1.5, 4.0]))}
@@ -618,6 +654,7 @@ class CIndLpBallProd(CIndLpBall):
     name = 'IndicatorLpUnitBall@prod'
     kinds = ('P', 'G')
     weight = 1
+    classes = ({'p': 2.0}, {'p': INF})
 
     def params(self, draw, rsp):
         return {'p': draw(st.sampled_from([2.0, INF]))}
@@ -630,6 +667,7 @@ class CIndLinfBallEl(CIndLpBall):
     kinds = ('T', 'P', 'G')
     weight = 0.5
     sigma_kinds = ('element',)
+    classes = ({'p': INF},)
 
     def params(self, draw, rsp):
         return {'p': INF}
@@ -639,6 +677,7 @@ class CConst(_Class):
     name = 'ConstantFunctional'
     kinds = ('T', 'P', 'G')
     weight = 0.5
+    classes = ({'c': 0.0}, {'c': 2.5})
 
     def params(self, draw, rsp):
         return {'c': draw(CONSTS)}
@@ -684,6 +723,7 @@ class CIndBox(_Class):
     name = 'IndicatorBox'
     kinds = ('T', 'P', 'G')
     weight = 2
+    classes = tuple({'kind': k} for k in BOX_KINDS)
 
     def params(self, draw, rsp):
         return _box_params(draw, rsp)
@@ -714,6 +754,7 @@ class CIndZero(_Class):
     name = 'IndicatorZero'
     kinds = ('T', 'P', 'G')
     weight = 0.7
+    classes = ({'c': 0.0}, {'c': 2.0})
 
     def params(self, draw, rsp):
         return {'c': draw(st.sampled_from([0.0, 0.0, 2.0, -1.5]))}
@@ -730,6 +771,7 @@ class _KLBase(_Class):
     cls = None
     rcls = None
     conj = False
+    classes = ({'prior': None}, {'prior': '__posvec__'})
 
     def params(self, draw, rsp):
         return {'prior': _opt_g(draw, rsp, positive=True)}
@@ -769,6 +811,9 @@ class CNuclear(_Class):
     name = 'NuclearNorm'
     kinds = ('M',)
     weight = 4
+    classes = ({'outer': 1.0, 'sv': 1.0}, {'outer': 1.0, 'sv': 2.0},
+               {'outer': 1.0, 'sv': INF}, {'outer': 2.0, 'sv': 2.0},
+               {'outer': 1.0, 'sv': 3.0})
 
     def params(self, draw, rsp):
         return {'outer': draw(st.sampled_from([1.0, 1.0, 1.0, 1.0, 2.0,
@@ -793,6 +838,8 @@ class CIndNuclearBall(_Class):
     name = 'IndicatorNuclearNormUnitBall'
     kinds = ('M',)
     weight = 3
+    classes = ({'outer': INF, 'sv': 1.0}, {'outer': INF, 'sv': 2.0},
+               {'outer': INF, 'sv': INF}, {'outer': 2.0, 'sv': 2.0})
 
     def params(self, draw, rsp):
         return {'outer': draw(st.sampled_from([INF, INF, INF, INF, 2.0])),
@@ -815,6 +862,7 @@ class CIndNuclearBall(_Class):
 class CIndSimplex(_Class):
     name = 'IndicatorSimplex'
     weight = 3
+    classes = ({'diameter': 1.0}, {'diameter': 2.0})
 
     def params(self, draw, rsp):
         return {'diameter': draw(st.sampled_from([1.0, 1.0, 0.5, 2.0, 10.0]))}
@@ -829,6 +877,7 @@ class CIndSimplex(_Class):
 class CIndSum(_Class):
     name = 'IndicatorSumConstraint'
     weight = 3
+    classes = ({'c': 1.0}, {'c': -2.0})
 
     def params(self, draw, rsp):
         return {'c': draw(st.sampled_from([1.0, 1.0, -2.0, 0.5, 7.0]))}
@@ -844,6 +893,7 @@ class CHuber(_Class):
     name = 'Huber'
     kinds = ('T', 'P')
     weight = 3
+    classes = ({'gamma': 0.0}, {'gamma': 0.4}, {'gamma': 2.5})
 
     def params(self, draw, rsp):
         return {'gamma': draw(GAMMAS)}
@@ -1085,6 +1135,8 @@ def conj_unavailable(fd):
         return fd['a'] == 0 and conj_unavailable(fd['f'])
     if t == 'conj':
         return False
+    if rule_name(fd) in ('leftscale_zero', 'argscale_zero'):
+        return False      # ZeroFunctional / ConstantFunctional
     return conj_unavailable(fd['f'])
 
 
